@@ -199,3 +199,12 @@ package socket
 //@   ensures[size-checked] @C06 result == nil ==> rm.size <= lim && len(bb.B) + 5 <= rm.size
 //@   requires[no-pending-refusal] !ghost.appendFailed
 //@   ensures[refusal-propagated] result == nil ==> !ghost.appendFailed
+
+// ---- C07: the id a socket is known by --------------------------------------------
+// the user-assigned id if there is one, else the remote address (a value fixed
+// for the connection: addrID is uninterpreted)
+//@ spec fn addrID(s *socket) string
+//@ spec fn sockID(s *socket) string = len(s.id) != 0 ? s.id : addrID(s)
+//@ trusted (*socket).ID
+//@   modifies nothing
+//@   ensures[id] result == sockID(s)
